@@ -360,7 +360,7 @@ pub fn field_specs(tier: Tier) -> Vec<FieldSpec> {
         }
     }
     // (3) message alphabet on length(String), range(i32), email
-    for m in messages(if tier == Tier::Quick { 2 } else { 3 }) {
+    for m in messages(if tier == Tier::Quick { 5 } else { 6 }) {
         v.push(FieldSpec { ty: "String".into(), attrs: vec![vec![val("length", Some("1"), Some("5"), Some(&m))]] });
         v.push(FieldSpec { ty: "i32".into(), attrs: vec![vec![val("range", Some("1"), None, Some(&m))]] });
         if tier == Tier::Thorough || m.chars().count() <= 1 || m.len() > 3 {
@@ -460,7 +460,7 @@ pub fn run(tier: Tier) -> CheckResult {
     res.coverage.set("distinct_nontrivial", distinct.len() as u64);
     res.coverage.set("exhaustive", exhaustive);
     res.coverage.set("samples", json!(specs.iter().step_by((specs.len() / 6).max(1)).take(6).map(|f| format!("{}pub f: {}", f.attr_lines(), f.ty)).collect::<Vec<_>>()));
-    res.coverage.set("rule", "validated fields: every pair of length bounds on String / Vec<String> / Option<String> and every pair of range bounds (integers, negatives, decimals, exponents, u64::MAX, -0.0) on i32 / f64 / Option<i32> / u64, with and without message; every subset of {length, email, url} in one attribute, in separate attributes, in reverse order, with per-validator messages; every message of <= 2 (quick) / 3 (thorough) letters over {a, space, 2/3/4-byte characters, escaped quote, escaped backslash, parentheses, comma, =} plus phrases containing validator keywords, on length, range and email; each validated field has an unvalidated twin. Oracle: the constraint list read from the field's parsed Zod chain (names, numerically compared bounds, JS-unescaped messages) equals the declared one; twins carry none; nothing sits on element schemas. distinct_nontrivial = distinct feature vectors (type, validators, #attributes, bound classes, message class).");
+    res.coverage.set("rule", "validated fields: every pair of length bounds on String / Vec<String> / Option<String> and every pair of range bounds (integers, negatives, decimals, exponents, u64::MAX, -0.0) on i32 / f64 / Option<i32> / u64, with and without message; every subset of {length, email, url} in one attribute, in separate attributes, in reverse order, with per-validator messages; every message of <= 5 (quick) / 6 (thorough) letters over {a, space, 2/3/4-byte characters, escaped quote, escaped backslash, parentheses, comma, =} plus phrases containing validator keywords, on length, range and email; each validated field has an unvalidated twin. Oracle: the constraint list read from the field's parsed Zod chain (names, numerically compared bounds, JS-unescaped messages) equals the declared one; twins carry none; nothing sits on element schemas. distinct_nontrivial = distinct feature vectors (type, validators, #attributes, bound classes, message class).");
     res.assumptions = vec!["only type-correct validator/type combinations are generated (length on strings and vectors, range on numbers, email/url on strings)".into()];
     res
 }
